@@ -148,9 +148,12 @@ def hextok(ctx, R):
     n = 0
     for f in fns:
         for nd in walk_local(f.node):
-            if isinstance(nd, ast.Call) and isinstance(nd.func, ast.Name) and nd.func.id == "int" and len(nd.args) == 2 and const_value(nd.args[1]) == 16:
+            if isinstance(nd, ast.Call) and isinstance(nd.func, ast.Name) and nd.func.id == "int" and len(nd.args) == 2:
                 n += 1
                 a = nd.args[0]
+                if const_value(nd.args[1]) != 16:
+                    R.bad("C19.HEXTOK", "%s|%s base" % (f.qual, ntext(nd)[:40]), where(f, nd), "`%s`: the fields of unicodedata.decomposition() are hexadecimal code points; parsed with base %s they raise ValueError or name another character" % (ntext(nd)[:60], ntext(nd.args[1])))
+                    continue
                 facts = _ast_facts(ctx, f, nd)
                 if isinstance(a, ast.Subscript) and isinstance(a.slice, ast.Constant) and isinstance(a.value, ast.Name):
                     X, k = a.value.id, a.slice.value
